@@ -1632,3 +1632,52 @@ package ice
 //@ func mergeFields
 //@   loop 2 invariant[C15] fresh(fields) && forall(j, 0, len(segments), segments[j] != nil ==> segments[j].fieldsInv == old(segments[j].fieldsInv) && contents(segments[j].fieldsInv) == old(contents(segments[j].fieldsInv)))
 //@   ensures[C15] @input_field_lists_untouched forall(j, 0, len(segments), segments[j] != nil ==> segments[j].fieldsInv == old(segments[j].fieldsInv) && contents(segments[j].fieldsInv) == old(contents(segments[j].fieldsInv)))
+//@
+//@ // ---------------------------------------------------------------------------
+//@ // C02/C08: the multi-segment term enumerator. After updateMatches the low key is the least key
+//@ // among the live iterators and lowIdxs lists, in ascending order, exactly the live iterators
+//@ // standing on it (brank: the order of bytes.Compare, see the prelude).
+//@ func (*enumerator).updateMatches
+//@   requires[C02,C08] m != nil && len(m.currKs) == len(m.currVs)
+//@   loop 0 invariant[C02,C08] m.lowCurr == 0 && -1 <= rangeindex && rangeindex < len(m.currKs) && len(m.lowIdxs) <= rangeindex + 1 && len(m.currKs) == len(m.currVs)
+//@   loop 0 invariant[C02,C08] forall(k, 0, len(m.lowIdxs), 0 <= m.lowIdxs[k] && m.lowIdxs[k] <= rangeindex)
+//@   loop 0 invariant[C02,C08] forall(k, 0, len(m.lowIdxs), k + 1 < len(m.lowIdxs) ==> m.lowIdxs[k] < m.lowIdxs[k + 1])
+//@   loop 0 invariant[C02,C08] forall(k, 0, len(m.lowIdxs), !(m.currKs[m.lowIdxs[k]] == nil && m.currVs[m.lowIdxs[k]] == 0) && !(len(m.currKs[m.lowIdxs[k]]) == 0 && skipEmptyKey) && brank(contents(m.currKs[m.lowIdxs[k]]), off(m.currKs[m.lowIdxs[k]]), len(m.currKs[m.lowIdxs[k]])) == brank(contents(m.lowK), off(m.lowK), len(m.lowK)))
+//@   loop 0 invariant[C02,C08] len(m.lowIdxs) > 0 ==> forall(j, 0, rangeindex + 1, !(m.currKs[j] == nil && m.currVs[j] == 0) && !(len(m.currKs[j]) == 0 && skipEmptyKey) ==> brank(contents(m.currKs[j]), off(m.currKs[j]), len(m.currKs[j])) >= brank(contents(m.lowK), off(m.lowK), len(m.lowK)))
+//@   loop 0 invariant[C02,C08] len(m.lowIdxs) == 0 ==> m.lowK == nil && forall(j, 0, rangeindex + 1, !(!(m.currKs[j] == nil && m.currVs[j] == 0) && !(len(m.currKs[j]) == 0 && skipEmptyKey)))
+//@   loop 0 invariant[C02,C08] len(m.lowIdxs) > 0 ==> forall(j, 0, m.lowIdxs[0], !(!(m.currKs[j] == nil && m.currVs[j] == 0) && !(len(m.currKs[j]) == 0 && skipEmptyKey) && brank(contents(m.currKs[j]), off(m.currKs[j]), len(m.currKs[j])) == brank(contents(m.lowK), off(m.lowK), len(m.lowK))))
+//@   loop 0 invariant[C02,C08] forall(k, 0, len(m.lowIdxs), k + 1 < len(m.lowIdxs) ==> forall(j, m.lowIdxs[k] + 1, m.lowIdxs[k + 1], !(!(m.currKs[j] == nil && m.currVs[j] == 0) && !(len(m.currKs[j]) == 0 && skipEmptyKey) && brank(contents(m.currKs[j]), off(m.currKs[j]), len(m.currKs[j])) == brank(contents(m.lowK), off(m.lowK), len(m.lowK)))))
+//@   loop 0 invariant[C02,C08] len(m.lowIdxs) > 0 ==> forall(j, m.lowIdxs[len(m.lowIdxs) - 1] + 1, rangeindex + 1, !(!(m.currKs[j] == nil && m.currVs[j] == 0) && !(len(m.currKs[j]) == 0 && skipEmptyKey) && brank(contents(m.currKs[j]), off(m.currKs[j]), len(m.currKs[j])) == brank(contents(m.lowK), off(m.lowK), len(m.lowK))))
+//@   ensures[C02,C08] @cursor_reset m.lowCurr == 0
+//@   ensures[C02,C08] @matches_ascending_in_range forall(k, 0, len(m.lowIdxs), 0 <= m.lowIdxs[k] && m.lowIdxs[k] < len(m.currKs) && (k + 1 < len(m.lowIdxs) ==> m.lowIdxs[k] < m.lowIdxs[k + 1]))
+//@   ensures[C02,C08] @matches_stand_on_the_low_key forall(k, 0, len(m.lowIdxs), !(m.currKs[m.lowIdxs[k]] == nil && m.currVs[m.lowIdxs[k]] == 0) && !(len(m.currKs[m.lowIdxs[k]]) == 0 && skipEmptyKey) && brank(contents(m.currKs[m.lowIdxs[k]]), off(m.currKs[m.lowIdxs[k]]), len(m.currKs[m.lowIdxs[k]])) == brank(contents(m.lowK), off(m.lowK), len(m.lowK)))
+//@   ensures[C02,C08] @low_key_is_least len(m.lowIdxs) > 0 ==> forall(j, 0, len(m.currKs), !(m.currKs[j] == nil && m.currVs[j] == 0) && !(len(m.currKs[j]) == 0 && skipEmptyKey) ==> brank(contents(m.currKs[j]), off(m.currKs[j]), len(m.currKs[j])) >= brank(contents(m.lowK), off(m.lowK), len(m.lowK)))
+//@   ensures[C02,C08] @exhausted_means_no_live_iterator len(m.lowIdxs) == 0 ==> m.lowK == nil && forall(j, 0, len(m.currKs), !(!(m.currKs[j] == nil && m.currVs[j] == 0) && !(len(m.currKs[j]) == 0 && skipEmptyKey)))
+//@   // completeness, stated without an existential: no live iterator on the low key before the first listed one, between two listed ones, or after the last
+//@   ensures[C02,C08] @every_iterator_on_the_low_key_is_listed len(m.lowIdxs) > 0 ==> forall(j, 0, m.lowIdxs[0], !(!(m.currKs[j] == nil && m.currVs[j] == 0) && !(len(m.currKs[j]) == 0 && skipEmptyKey) && brank(contents(m.currKs[j]), off(m.currKs[j]), len(m.currKs[j])) == brank(contents(m.lowK), off(m.lowK), len(m.lowK))))
+//@   ensures[C02,C08] @every_iterator_on_the_low_key_is_listed forall(k, 0, len(m.lowIdxs), k + 1 < len(m.lowIdxs) ==> forall(j, m.lowIdxs[k] + 1, m.lowIdxs[k + 1], !(!(m.currKs[j] == nil && m.currVs[j] == 0) && !(len(m.currKs[j]) == 0 && skipEmptyKey) && brank(contents(m.currKs[j]), off(m.currKs[j]), len(m.currKs[j])) == brank(contents(m.lowK), off(m.lowK), len(m.lowK)))))
+//@   ensures[C02,C08] @every_iterator_on_the_low_key_is_listed len(m.lowIdxs) > 0 ==> forall(j, m.lowIdxs[len(m.lowIdxs) - 1] + 1, len(m.currKs), !(!(m.currKs[j] == nil && m.currVs[j] == 0) && !(len(m.currKs[j]) == 0 && skipEmptyKey) && brank(contents(m.currKs[j]), off(m.currKs[j]), len(m.currKs[j])) == brank(contents(m.lowK), off(m.lowK), len(m.lowK))))
+//@
+//@ // the enumeration reports its end exactly when no live iterator is left (an iterator standing
+//@ // on the empty term has a nil key and is live: its value is not 0)
+//@ func prepareNewTerm
+//@   requires[C02,C08] enumerator != nil
+//@ func persistMergedRestField
+//@   loop 0 invariant[C02,C08] enumerator != nil && len(enumerator.currKs) == len(enumerator.currVs) && len(enumerator.currKs) == len(enumerator.itrs) && enumerator.lowCurr >= 0 && forall(k, 0, len(enumerator.lowIdxs), 0 <= enumerator.lowIdxs[k] && enumerator.lowIdxs[k] < len(enumerator.currKs))
+//@ func newEnumerator
+//@   ensures[C02,C08] @done_iff_no_live_iterator result0 != nil && (result1 == nil <==> len(result0.lowIdxs) > 0)
+//@   ensures[C02,C08] result0.lowCurr == 0 && len(result0.currKs) == len(itrs) && len(result0.currVs) == len(itrs)
+//@ typeinv[C02,C08] enumerator len(self.currKs) == len(self.currVs) && len(self.currKs) == len(self.itrs) && self.lowCurr >= 0
+//@ typeinv[C02,C08] enumerator forall(k, 0, len(self.lowIdxs), 0 <= self.lowIdxs[k] && self.lowIdxs[k] < len(self.currKs))
+//@ func (*enumerator).Next
+//@   requires[C02,C08] m != nil
+//@   loop 0 invariant[C02,C08] len(m.currKs) == len(m.currVs) && len(m.currKs) == len(m.itrs) && forall(k, 0, len(m.lowIdxs), 0 <= m.lowIdxs[k] && m.lowIdxs[k] < len(m.currKs))
+//@   ensures[C02,C08] @success_means_a_current_entry result0 == nil ==> 0 <= m.lowCurr && m.lowCurr < len(m.lowIdxs)
+//@   ensures[C02,C08] @stepping_within_a_key_keeps_the_key old(m.lowCurr) + 1 < old(len(m.lowIdxs)) ==> result0 == nil && m.lowCurr == old(m.lowCurr) + 1 && m.lowK == old(m.lowK) && m.lowIdxs == old(m.lowIdxs)
+//@ func (*enumerator).Current
+//@   requires[C02,C08] m != nil
+//@   ensures[C02,C08] @current_entry key == m.lowK && (m.lowCurr < len(m.lowIdxs) ==> index == m.lowIdxs[m.lowCurr] && val == m.currVs[index])
+//@ func (*enumerator).GetLowIdxsAndValues
+//@   requires[C02,C08] m != nil
+//@   loop 0 invariant[C02,C08] fresh(values) && len(values) == rangeindex + 1 && rangeindex < len(m.lowIdxs) && forall(k, 0, len(values), values[k] == m.currVs[m.lowIdxs[k]])
+//@   ensures[C02,C08] @values_parallel_to_indices lowIdxs == m.lowIdxs && len(values) == len(m.lowIdxs) && forall(k, 0, len(values), values[k] == m.currVs[m.lowIdxs[k]])
